@@ -105,7 +105,7 @@ def spec_level(ctx: Ctx):
     """Exhaustive model checking of the as-designed model + spec mutants."""
     designed = ["greedy22", "munkres22", "random22", "greedy22_2eng", "greedy22_ser", "truthonly", "faults"]
     if not ctx.quick:
-        designed += ["munkres23", "greedy32", "random23"]
+        designed += ["munkres23", "greedy32", "random23", "munkres33", "greedy33", "random33", "munkres22_3steps"]
     mutants = {"coded_reset": "PointingReflectsTasking", "coded_squared": "OneRecordPerTasking",
                "coded_keep": "LastStepMissesOnly"}
 
